@@ -95,6 +95,37 @@ def _app_catch_all(ex, st, post, result):
     # whatever response object was chosen is what is sent: called with (environ, start_response)
     sent = T.evs(st, 'resp')
     ok = len(sent) == 1 and len(sent[0][1].args) == 2 and sent[0][1].args[0] is post.env['environ'] and result is sent[0][1].result
+    if len(sent) == 1:
+        from pyvc.values import opaque_is_none
+        sr = sent[0][1].recv
+        ok_h = [h for i, h in handles if not h.raised]
+        bad_h = [h for i, h in handles if h.raised]
+        own = [e for i, e in resps] + [e for i, e in wel]
+        is_own = any(sr is e.result for e in own)
+        path = ex.opaque_field(st, post.env.get('req') or st.env.get('req'), 'path') if (post.env.get('req') or st.env.get('req')) is not None else None
+        if ok_h:
+            none = opaque_is_none(ok_h[0].result.t)
+            g4 = z3.If(none, z3.BoolVal(is_own), z3.BoolVal(sr is ok_h[0].result))
+        elif bad_h:
+            g4 = z3.BoolVal(is_own and not wel)
+        else:
+            g4 = z3.BoolVal(is_own)
+        if wel and path is not None:
+            g4 = z3.And(g4, z3.Or(path.t == z3.StringVal(''), path.t == z3.StringVal('/')))
+        elif any(getattr(e.args[0], 'conc', lambda: None)() == 'not found' for i, e in resps) and path is not None:
+            g4 = z3.And(g4, path.t != z3.StringVal(''), path.t != z3.StringVal('/'))
+        yield ('handler_answer_is_passed_through', g4,
+               "the answer of the matching service handler is sent unchanged; the application's own documents are used only "
+               "when no handler answered: welcome page for '' and '/', 404 for every other path, constant 500 after a failure")
+    known = [e for i, e in T.evs(st, 'contains') if len(e.args) == 2 and e.args[0] is st.heap[post.env['self'].ref]['handlers']]
+    g5 = z3.BoolVal(len(known) <= 1 and len(handles) <= len(known))
+    for e in known:
+        g5 = z3.And(g5, ex.truth(st, e.result) == z3.BoolVal(len(handles) == 1))
+        for i, h in handles:
+            g5 = z3.And(g5, z3.BoolVal(len(h.args) == 1))
+    yield ('request_goes_to_the_named_service', g5,
+           'a request whose first path segment names a configured service is handled by that service (exactly once); any other '
+           'is not handled by a service at all')
     yield ('response_object_is_sent', z3.BoolVal(bool(ok)),
            'the WSGI answer is resp(environ, start_response) of the response chosen above (handler result, 500, welcome or 404)')
 
